@@ -76,7 +76,18 @@ def judge(ctx: Ctx, runs: list[dict], tag: str) -> tuple[dict[int, list[tuple[in
     return rejected, accepted, res
 
 
+def _run_cli(desc: dict) -> dict:
+    from .engine_driver import run_cli
+
+    try:
+        return run_cli(desc)
+    except BaseException as exc:
+        return {"hdr": None, "lines": [], "desc": desc, "machinery": repr(exc)}
+
+
 def variant_of(desc: dict) -> str:
+    if desc.get("cli"):
+        return "cli" + ("+handler-fault" if desc.get("handler_fault") else "")
     if "env_stop" in desc:
         return "forced-schedule" + ("+fault" if desc.get("fault") else "") + ("+stop" if desc.get("env_stop") else "")
     if desc.get("fault"):
@@ -365,7 +376,28 @@ def run_property(ctx: Ctx, pid: str, design_cfgs: list[str]) -> Outcome:
     if sinfo["diverged"]:
         out.notes.append("%d forced schedule(s) could not be followed by the implementation (replay divergence, e.g. %s)" % (
             sinfo["diverged"], next(r["hdr"]["diverged"] for r in forced if r["hdr"]["diverged"])))
-    runs = refs + disturbed + forced
+    # 3b'. the real command line in subprocesses (C05 only): process exit code vs. what the API served
+    cli_runs: list[dict] = []
+    if pid == "C05":
+        cli_descs = [
+            {"ops": ["ok", "ok"], "phases": ["coverage", "fuzzing"], "workers": 1},
+            {"ops": ["ok", "bad"], "phases": ["fuzzing"], "workers": 2},
+            {"ops": ["ok", "neterr"], "phases": ["fuzzing"], "workers": 1},
+            {"ops": ["invalid", "ok"], "phases": ["fuzzing"], "workers": 1},
+            {"ops": ["bad", "ok", "bad"], "phases": ["coverage", "fuzzing"], "workers": 2, "max_failures": 1},
+            {"ops": ["ok", "ok"], "phases": ["fuzzing"], "workers": 1, "handler_fault": True},
+        ]
+        if not ctx.quick:
+            cli_descs += [dict(d, workers=w, cof=c) for d in cli_descs[:5] for w in (1, 3) for c in (False, True)]
+        cli_descs = [dict(d, seed=ctx.seed + i + 1, max_examples=2, params=True) for i, d in enumerate(cli_descs)]
+        import multiprocessing as mp
+
+        with mp.get_context("fork").Pool(min(6, len(cli_descs))) as pool:
+            cli_runs = pool.map(_run_cli, cli_descs, chunksize=1)
+        for r in cli_runs:
+            if r.get("machinery"):
+                raise RuntimeError("CLI run failed: %s on %s" % (r["machinery"], r["desc"]))
+    runs = refs + disturbed + forced + cli_runs
     t_runs = time.time() - t1
     # 3c. action-level trace validation of the fully forced unit-phase runs against Engine.tla's own actions
     alevel = action_level(ctx, forced)
@@ -407,7 +439,7 @@ def run_property(ctx: Ctx, pid: str, design_cfgs: list[str]) -> Outcome:
                 "every/sampled stop position, Ctrl-C position and single fault per the recipe of %s; non-trivial = run with a bad API answer or a disturbance" % (len(fam), pid),
         "exhaustive": False,
         "design_models": design, "old_designs_refuted": refuted,
-        "forced_schedules": sinfo, "action_level_traces": {k: v for k, v in alevel.items() if k != "rejected"},
+        "cli_subprocess_runs": len(cli_runs), "forced_schedules": sinfo, "action_level_traces": {k: v for k, v in alevel.items() if k != "rejected"},
         "family_size": len(fam), "base_descriptors": len(plain), "disturbed_runs": len(todo), "faults_fired": fired,
         "accepted": len(accepted), "rejected_own": own, "rejected_foreign": sum(foreign.values()),
         "trace_lines": sum(len(r["lines"]) for r in runs), "judge_states": jres.distinct,
